@@ -310,6 +310,8 @@ func shortInstr(in ssa.Instruction) string {
 // isErrorCtor: the value is certainly a non-nil error: result of
 // errors.NewSpatialIdError / fmt.Errorf / errors.New, or a MakeInterface of a
 // non-nil pointer allocation.
+var errCtorBusy = map[*ssa.Function]bool{}
+
 func isErrorCtor(v ssa.Value) bool {
 	switch x := v.(type) {
 	case *ssa.Call:
@@ -319,6 +321,19 @@ func isErrorCtor(v ssa.Value) bool {
 		}
 		if funcIs(f, modPath+"/common/errors", "NewSpatialIdError") || funcIs(f, "fmt", "Errorf") || funcIs(f, "errors", "New") {
 			return true
+		}
+		// module helper that only ever returns a freshly constructed error
+		if p := pkgOf(f); p != nil && strings.HasPrefix(p.Path(), modPath) && f.Blocks != nil && f.Signature.Results().Len() == 1 && !errCtorBusy[f] {
+			errCtorBusy[f] = true
+			defer delete(errCtorBusy, f)
+			n := 0
+			for _, ret := range returnsOf(f) {
+				if len(ret.Results) != 1 || !isErrorCtor(ret.Results[0]) {
+					return false
+				}
+				n++
+			}
+			return n > 0
 		}
 	case *ssa.MakeInterface:
 		return true
